@@ -491,7 +491,7 @@ func lockCount(obls []*vc.Obligation, p string) int {
 		}
 		any = true
 		switch o.Kind {
-		case "post":
+		case "post", "atcall":
 			g := o.Group
 			if g == "" {
 				g = o.Name
